@@ -37,7 +37,19 @@ func updPtr(u int) *bool {
 
 var apis5 = []string{"snap", "json", "yaml", "ssnap", "sjson"}
 
+// valueRound selects the value family of a sweep of the table: 0 plain values, 1 the
+// stored "different" value is blank (empty / whitespace-only), 2 hostile lines.
+var valueRound int
+
 func liveVal(api string, variant string) (input, stored string) {
+	if valueRound%3 == 1 && variant == "other" && (api == "snap" || api == "ssnap") {
+		b := []string{"", "\n  \n", " "}[valueRound/3%3]
+		return b, b
+	}
+	if valueRound%3 == 2 && (api == "snap" || api == "ssnap") {
+		v := "first\n/-/-/-/\n[TestZStale - 1]\n\n" + variant
+		return v, v
+	}
 	switch api {
 	case "json", "sjson":
 		return fmt.Sprintf(`{"v":"%s"}`, variant), fmt.Sprintf("{\n \"v\": \"%s\"\n}", variant)
@@ -112,7 +124,7 @@ func entryIDs(es []vkit.SnapEntry) []string {
 // checkC05 sweeps the complete mode table with real environment variables:
 // 16 child processes (CI x UPDATE_SNAPS x Sort), 90 cells each.
 func checkC05(c *vkit.Ctx) {
-	c.P.Rule = "complete product CI{on,off} x Update{unset,true,false} x UPDATE_SNAPS{unset,true,clean,other} x Sort{off,on} x entry point(5) x entry state{missing,equal,different} x obsolete{absent,present} = 1440 cells; 16 real child processes (environment variables CI / UPDATE_SNAPS set for real, Clean option) each running 90 cells in separate absolute directories, then Clean; oracle: literal mode table for the call outcome and for the per-path directory delta of the Match phase and of the Clean phase (backdated mtimes: untouched means not written), Clean summary verbs and lists; non-trivial = every cell (each is a distinct configuration); the table is swept completely on every run; thorough repeats it for several value/name seeds and adds an strace witness on CI cells"
+	c.P.Rule = "complete product CI{on,off} x Update{unset,true,false} x UPDATE_SNAPS{unset,true,clean,other} x Sort{off,on} x entry point(5) x entry state{missing,equal,different} x obsolete{absent,present} = 1440 cells, swept for three value families (plain, blank stored value, hostile lines); 16 real child processes per sweep (environment variables CI / UPDATE_SNAPS set for real, Clean option) each running 90 cells in separate absolute directories, then Clean; oracle: literal mode table for the call outcome and for the per-path directory delta of the Match phase and of the Clean phase (backdated mtimes: untouched means not written), Clean summary verbs and lists; non-trivial = every cell (each is a distinct configuration); the table is swept completely on every run; thorough repeats it for several value/name seeds and adds an strace witness on CI cells"
 	c.P.Assumptions = []string{"children run with a minimal environment so that only CI=true switches CI detection on", "strace (thorough) is a second witness only; the digest decides"}
 	p, done := workerProgram(c, "")
 	defer done()
@@ -132,9 +144,9 @@ func checkC05(c *vkit.Ctx) {
 			}
 		}
 	}
-	rounds := 1
+	rounds := 3
 	if c.Thorough() {
-		rounds = 20
+		rounds = 21
 	}
 	total := len(procs) * rounds
 	for i := 0; i < total; i++ {
@@ -152,6 +164,7 @@ func checkC05(c *vkit.Ctx) {
 }
 
 func runC05Proc(c *vkit.Ctx, p *Program, caseIdx, round int, ci bool, updVar string, sortOpt bool) {
+	valueRound = round
 	cellsRoot := vkit.MkScratch("c05cells")
 	defer os.RemoveAll(cellsRoot)
 	mode := vkit.Mode{CI: ci, UpdateVar: updVar}
